@@ -9,3 +9,7 @@ Theorem C05_zero_length : C05_zero_length_stmt.  Proof. exact Proofs.C05.C05_zer
 Theorem C05_end_excluded : C05_end_excluded_stmt. Proof. exact Proofs.C05.C05_end_excluded. Qed.
 Theorem C05_none_iff : C05_none_iff_stmt.        Proof. exact Proofs.C05.C05_none_iff. Qed.
 Theorem C05_some_first : C05_some_first_stmt.    Proof. exact Proofs.C05.C05_some_first. Qed.
+
+(** Chart level: every track of every successfully parsed chart (through [from_file]). *)
+From CP Require Import Spec.ChartNotes Proofs.ChartNotes.
+Theorem C05_chart : C05_chart_stmt.  Proof. exact Proofs.ChartNotes.C05_chart. Qed.
